@@ -15,6 +15,8 @@ ops:  add <w> <x> | flush <w> | wait <w> | tick | rel <first task of batch> ok|p
       unhold <w>                               disarm and release caller w
       hold bg fremoved | unhold bg             the same for the background flusher(s): parked inside the RemoveAll of
                                                the tick / quit Flush
+      hold bg since                            a flusher parks inside timex.Since(last) of shallQuit: after its EMPTY tick Flush,
+                                               before the idle check and the lock of the quit decision (model pc `bQuit`)
       hold bg stop                             a flusher that has DECIDED to quit parks in ticker.Stop(): after shallQuit,
                                                before its deferred Flush (model pc `fEnter quit`); skip while armed for the other point
       rel <first> ok|panic|epanic|rpanic       the gated callback returns / panics with a string / an error value / a run-time error
@@ -59,6 +61,7 @@ def holdPc (pt : String) (pc : Pc) : Bool :=
   | "notfull", .aGuard false => true
   | "removed", .aGuard true => true
   | "fremoved", .fUnlock _ => true
+  | "since", .bQuit => true            -- timex.Since(last) in shallQuit: after the EMPTY tick Flush, before the idle check / the lock
   | "stop", .fEnter .quit => true      -- ticker.Stop(): the quitting flusher's first deferred call, before its deferred Flush
   | _, _ => false
 
@@ -68,7 +71,7 @@ abbrev Holds := List (Nat × String)
 def bgHold : Nat := 1000000
 
 def isHeld (holds : Holds) (t : Nat) (pc : Pc) : Bool :=
-  holds.any fun h => (h.1 == t || (h.1 == bgHold && (match pc with | .fUnlock .tick => true | .fUnlock .quit => true | .fEnter .quit => true | _ => false)))
+  holds.any fun h => (h.1 == t || (h.1 == bgHold && (match pc with | .fUnlock .tick => true | .fUnlock .quit => true | .fEnter .quit => true | .bQuit => true | _ => false)))
     && holdPc h.2 pc
 
 def inCallback (pc : Pc) : Bool := match pc with | .fCall _ => true | .bCall => true | _ => false
@@ -231,7 +234,7 @@ def applyOp (d : DCfg) (holds : Holds) (bholder : Option Nat) (s : St) : List St
     pure (q, ex, "")
   | ["hold", "bg", pt] =>
     -- armed for (maybe parked at) the other hold point: the harness skips
-    if (pt = "fremoved" ∨ pt = "stop") ∧ !(holds.any fun h => h.1 == bgHold && h.2 != pt) then some ([s], false, "") else none
+    if (pt = "fremoved" ∨ pt = "stop" ∨ pt = "since") ∧ !(holds.any fun h => h.1 == bgHold && h.2 != pt) then some ([s], false, "") else none
   | ["unhold", "bg"] =>
     let (q, ex) := closure (internalSucc d false holds) fuel [s] [] []
     some (q, ex, "")
@@ -422,6 +425,19 @@ def runLine (d : DCfg) (kind : String) (max : Int) (sec : Nat) (acc : Report × 
       | _ => pure ()
     if l.op = ["unhold", "bg"] ∧ (ds.holds.any fun h => h.1 == bgHold ∧ h.2 == "stop") ∧ nf.length > 0 then
       r := r.addCover "quit-time-deferred-Flush-executed-tasks"
+    -- the window of `quit_time_flush_is_needed`, forced: the flusher is parked between its empty tick Flush and its quit decision
+    let deciding := ds.holds.any (fun h => h.1 == bgHold ∧ h.2 == "since") ∧ fls.contains "hold"
+    if deciding then
+      match l.op with
+      | ["add", _, _] =>
+        r := r.addCover "add-between-empty-tick-flush-and-quit-decision"
+        if cont.isEmpty then r := r.addCover "threshold-add-between-empty-tick-flush-and-quit-decision"
+      | ["flush", _] => r := r.addCover "flush-between-empty-tick-flush-and-quit-decision"
+      | ["wait", _] => r := r.addCover "wait-between-empty-tick-flush-and-quit-decision"
+      | _ => pure ()
+    if l.op = ["unhold", "bg"] ∧ (ds.holds.any fun h => h.1 == bgHold ∧ h.2 == "since") then
+      if nf.length > 0 ∧ kvStr l.obs "g" "1" = "0" then r := r.addCover "tasks-of-the-quit-window-executed-by-the-quitting-flusher's-deferred-Flush"
+      if kvStr l.obs "g" "1" = "1" ∧ kvStr l.obs "inf" "0" ≠ "0" then r := r.addCover "quit-refused-in-the-window-because-inflight"
     let cbsNow := if kvStr l.obs "cb" "-" = "-" then 0 else ((kvStr l.obs "cb" "-").splitOn ";").length
     if cbsNow + (if kvStr l.obs "cmd" "0" = "1" then 1 else 0) + (if ws.contains "send" then 1 else 0) ≥ 2 then
       match l.op with
